@@ -105,13 +105,14 @@ func (r *playlistRunner) Step(line string) []string {
 				return []string{"bad-op"}
 			}
 		}
+		g := " g=" + plBool(plGrammarCheck(b, plGrammarOpts{}) == nil) + plBool(plGrammarCheck(b, plGrammarOpts{lenientByteRange: true}) == nil)
 		q, err, pan := plSafeUnmarshal(b)
 		switch {
 		case pan != nil:
 			r.fail(fmt.Sprintf("C15: Unmarshal panicked: %v on %q", pan, plClip(b)))
-			return []string{"unm panic"}
+			return []string{"unm panic" + g}
 		case err != nil:
-			return []string{"unm err"}
+			return []string{"unm err" + g}
 		}
 		for _, f := range plStructure(q) {
 			r.fail(fmt.Sprintf("C15: accepted input violates the structure clause: %s; input=%q", f, plClip(b)))
@@ -119,9 +120,9 @@ func (r *playlistRunner) Step(line string) []string {
 		b2, err, pan := plSafeMarshal(q)
 		if pan != nil || err != nil {
 			r.fail(fmt.Sprintf("C15: a decoded value cannot be marshaled again: %v %v; input=%q", err, pan, plClip(b)))
-			return []string{"unm ok " + plCanon(q) + " re panic"}
+			return []string{"unm ok " + plCanon(q) + " re panic" + g}
 		}
-		return []string{"unm ok " + plCanon(q) + " re " + hexOrDash(b2)}
+		return []string{"unm ok " + plCanon(q) + " re " + hexOrDash(b2) + g}
 	}
 	return []string{"bad-op"}
 }
